@@ -6,7 +6,10 @@ PROPS = [json.loads(l)['id'] for l in open(os.path.join(HERE, 'properties.jsonl'
 
 NOTE_COMMON = ("Trusted: rustc type checking and MIR construction, the fact extractor, the model table of external "
                "functions (DESIGN 3.5), dependency summaries pinned to Cargo.lock versions (DESIGN 3.6); cryptographic "
-               "assumptions where the text says 'modulo'. Numerical behaviour of primitives is not decided.")
+               "assumptions where the text says 'modulo'. Numerical behaviour of primitives is not decided. Every path rule is accompanied by the "
+               "lemmas that make its reading of the code legitimate: L-PROFILE / L-FEATURES (same summaries with debug assertions off and with the serde/std "
+               "features off), L-CLONE (every Clone impl of the crate is field-wise identity), L-PARAMS (parameter constructors/defaults), reviewed-function "
+               "tables for the KeGroup codec, group-operation, hash-to-scalar and zero-test functions (DESIGN 11.9-11.10).")
 
 def _c(tech, text, ref):
     return (tech, text, ref)
@@ -55,19 +58,19 @@ CLAIMED = {
               "fixed three genuine defects (trailing bytes, two SEC1 alias encodings).", "DESIGN.md section 5 C10"),
     'C11': _c("who-may-construct analysis of the key newtypes (generic MIR), type-layout scan, and must-pass-through filters in each KeGroup decoder (monomorphic MIR)",
               "Decides that invalid encodings cannot become key values: construction discipline, presence of the required filters on every Ok path of each group decoder, serde parity. "
-              "Found and fixed one genuine defect (Curve25519 small-order points). The filters' arithmetic is the dependencies'.", "DESIGN.md section 5 C11"),
+              "Found and fixed one genuine defect (Curve25519 small-order points). The zero test used for derived keys and the crate's forwarding voprf::Group impl are reviewed bodies. The filters' arithmetic is the dependencies'.", "DESIGN.md section 5 C11"),
     'C12': _c("panic-site and loop inventory over reachable monomorphic instances with path-wise discharge (constant conditions, length sets, exact-length copies), allow-list by symbol",
               "Decides for the crate's own code that every potential panic and loop reachable from the API is discharged or individually justified, that no length is narrowed and no result "
               "dropped. Dependencies are trusted not to panic on the arguments given.", "DESIGN.md section 5 C12"),
-    'C13': _c("symbolic decode(encode(x)) field identity on monomorphic MIR + structural check of derived serde impls on generic MIR + purity lemma",
+    'C13': _c("symbolic decode(encode(x)) field identity on monomorphic MIR (incl. the server setup under an external key type) + structural check of derived serde impls on generic MIR + purity lemma",
               "Decides that the native and serde encodings carry every field needed and that nothing outside (state, arguments, rng) influences the continuation. Value-level round trip of leaf "
-              "encoders is the dependencies'.", "DESIGN.md section 5 C13"),
+              "encoders is the dependencies'. Found and fixed one genuine defect (a setup holding an external key whose encoding is not scalar-sized could not be reloaded).", "DESIGN.md section 5 C13, 11.4 F4"),
     'C16': _c("term comparison of the export-key formula at seal and open + secret-flow (taint under one-way nodes) analysis of every message and password-file field",
               "Decides that the export key is Expand(randomized_pwd, nonce||\"ExportKey\") at both ends with the envelope's fresh nonce, and that no secret reaches a message or the password file "
               "except under a one-way function. 'Does not appear verbatim', not computational hiding.", "DESIGN.md section 5 C16"),
     'C18': _c("call-graph who-may-call + guard analysis of the server code instantiated with an external key type; term equality with the direct-key instantiation",
               "Decides the structure completely: which SecretKey methods are invoked, that their errors reach the caller unchanged on every path, no unwrap, no response before the DH outcome, "
-              "and that external-key and direct-key runs compute the same terms.", "DESIGN.md section 5 C18"),
+              "that external-key and direct-key runs compute the same terms, and that the stored setup image is seed || the key's own encoding || fake key and reloads.", "DESIGN.md section 5 C18"),
     'C17': _c("who-may-call analysis over the whole monomorphic call graph (deny-list of entropy/time/IO items, RNG receiver types) + provenance of each random quantity",
               "Decides for the production build where every random quantity comes from (a distinct draw on the caller's generator) and that no other entropy, time or global state is "
               "reachable. That independent tapes give different values is the tape's property.", "DESIGN.md section 5 C17"),
